@@ -31,4 +31,9 @@ PROPS = {
         "quick": {"shards": 8, "timeout_s": 900, "floors": {"distinct_nontrivial": 300, "box_steps_compared": 50000, "point_steps_compared": 50000, "cost_grid_points": 10000, "stationary_checks": 300}},
         "thorough": {"shards": 16, "timeout_s": 3000, "floors": {"distinct_nontrivial": 15000}},
     },
+    "C11": {
+        "level": "fault_enumeration",
+        "quick": {"shards": 8, "timeout_s": 900, "floors": {"distinct_nontrivial": 1500, "fault_positions": 5000, "fault_runs/update.apply": 300, "fault_runs/attributes.merge": 300, "fault_runs/metric.optimize": 1000}},
+        "thorough": {"shards": 16, "timeout_s": 3000, "floors": {"distinct_nontrivial": 50000}},
+    },
 }
